@@ -25,6 +25,7 @@ mod c18;
 mod c19;
 mod c20;
 mod engine;
+mod lx;
 mod model;
 mod report;
 mod rng;
